@@ -7,9 +7,9 @@ use vstd::std_specs::iter::IteratorSpec;
 verus! {
 
 /// stand-ins (never inspected by the verified text)
-pub struct Repository { pub _opaque: () }
+#[verifier::external_body] pub struct Repository { _o: () }
 pub enum GitAiError { Generic(String) }
-pub struct Instant { pub _opaque: () }
+#[verifier::external_body] pub struct Instant { _o: () }
 #[verifier::external_body]
 pub struct Lookup { _o: () }          // HashSet<&str>: the rewritten commits to process
 #[verifier::external_body]
